@@ -45,14 +45,14 @@ def judge(ctx, tags, src_of, base, r, L, u):
         ctx.violation("runner-%s:cpu:%s" % (r.cls, key_in), "the interpreter ended with %s (%s) under kill={cpu=%d}" % (r.cls, r.ret, L), replay)
         return True
     if r.intercepted:
-        ctx.violation("pcall-intercepts-kill:cpu", "Lua code received the kill as an ordinary pcall error and went on running in "
-                      "the limited context (program %s, limit %d, unlimited usage %d)" % (tags, L, u), replay)
+        ctx.violation("kill-intercepted:cpu:" + key_in, "Lua code received the kill as an ordinary pcall error and went on running "
+                      "in the limited context (program %s, limit %d, unlimited usage %d)" % (tags, L, u), replay)
         return True
     if r.status is None:
         ctx.violation("no-status:cpu:" + key_in, "runner class %s, no status line" % r.cls, replay)
         return True
     if luaquota.ctx_intercept(r.body, base.body):
-        ctx.violation("callcontext-intercepts-kill:cpu", "an inner runtime.callcontext was killed by the cpu limit inherited from the "
+        ctx.violation("kill-intercepted-by-callcontext:cpu:" + key_in, "an inner runtime.callcontext was killed by the cpu limit inherited from the "
                       "enclosing context and reported 'killed' to Lua code that went on running (program %s, limit %d)" % (tags, L), replay)
         return True
     killed = r.status == "killed"
@@ -138,7 +138,7 @@ def lua_leg(ctx, binpath, nprog, width):
             continue
         judge(ctx, tags, lambda LL, src=src: wrap(src, LL), base, r, L, u)
         near = abs(L - u) <= 2
-        inside = r.status == "killed" and any(t.startswith(("pcall", "coro", "xpcall", "close", "p", "ctx")) for t in tags.split("+"))
+        inside = r.status == "killed" and any(t.startswith(("pcall", "coro", "xpcall", "close", "p", "ctx", "W:")) for t in tags.split("+"))
         ctx.case("%s|%d" % (tags, L), near or inside)
         ctx.count("lua:" + (r.status or r.cls))
         if near:
@@ -162,7 +162,7 @@ def judge_probe(ctx, tags, src, r, L):
         ctx.violation("runner-%s:cpu:%s" % (r.cls, tags), "probe ended with %s (%s)" % (r.cls, r.ret), replay)
         return
     if r.intercepted:
-        ctx.violation("pcall-intercepts-kill:cpu", "Lua code received the kill as an ordinary pcall error and went on running "
+        ctx.violation("kill-intercepted:cpu:" + tags, "Lua code received the kill as an ordinary pcall error and went on running "
                       "in the limited context (%s, limit %d)" % (tags, L), replay)
         return
     body = [luaquota.dec(x) for x in r.body]
